@@ -66,8 +66,10 @@ Definition wire_item_fixed (lc : listen_cfg) : item_args :=
 Record fixes := { fx_wiring : bool;        (* startProxy argument order (received-support) *)
                   fx_udp_via_listener : bool; (* findClientTransport: listener socket only for UDP next hops *)
                   fx_indialog_invite : bool;  (* findBackendByDialog also for INVITE / SUBSCRIBE *)
-                  fx_bracket_host : bool }.   (* handleRawMessage: host[1:len-1] guarded *)
-Definition all_fixed : fixes := {| fx_wiring := true; fx_udp_via_listener := true; fx_indialog_invite := true; fx_bracket_host := true |}.
+                  fx_bracket_host : bool;     (* handleRawMessage: host[1:len-1] guarded *)
+                  fx_resolved_key : bool }.   (* the per-transaction TCP entry is filed and dropped under the RESOLVED address *)
+Definition all_fixed : fixes := {| fx_wiring := true; fx_udp_via_listener := true; fx_indialog_invite := true; fx_bracket_host := true;
+                                   fx_resolved_key := true |}.
 
 (* ------------------------------------------------------------------ transports *)
 Inductive tkind := KUdp | KTcpListen | KTcpConn.
@@ -296,7 +298,7 @@ Definition failover_send (li : nat) (local : bytes) (rs : bool) (f : failover) (
 (* ------------------------------------------------------------------ MyName *)
 Record my_name := { mn_names : list bytes; mn_patterns : list rx }.
 Definition new_my_name (name : bytes) : my_name :=
-  let names := map trim_space (split_byte ","%char name) in
+  let names := map trim_space_go (split_byte ","%char name) in
   {| mn_names := names;
      mn_patterns := flat_map (fun s => match rx_compile s with Some r => [r] | None => [] end) names |}.
 Definition match_absolute_uri (n : my_name) (u : bytes) : bool :=
@@ -375,7 +377,8 @@ Definition send_message (e : env) (host : bytes) (port : Z) (transport : bytes) 
       match alookup key (ps_table p2) with
       | None => ({| x_learned := x_learned x; x_p := p2; x_conns := x_conns x; x_world := x_world x; x_outs := x_outs x |}, m1)
       | Some f =>
-          let p3 := if is_final_response m1 then remove_transport transport host port trans_id p2 else p2 in
+          let p3 := if is_final_response m1
+                    then remove_transport transport (if fx_resolved_key (e_fx e) then ip else host) port trans_id p2 else p2 in
           let '(p4, cs, w, outs, ok, f') :=
             failover_send (e_li e) (lc_addr (e_lc e)) (pa_received_support (wire_proxy (e_lc e))) f (write_message m1) p3 (x_conns x) (x_world x) in
           (* the entry object was mutated by Send (primary forgotten): visible through the table
@@ -615,7 +618,10 @@ Definition process_message (e : env) (peer : bytes) (peer_port : Z) (from : stra
                       let '(m'', tid) := mtry s_client_transaction m' in
                       match tid with
                       | Ok (Some t) =>
-                          let '(p1, rk) := get_transport (now_s e) (s2b "tcp") host port t (x_p x) in
+                          (* filed under the address sendMessage will look up *)
+                          let host_r := if fx_resolved_key (e_fx e)
+                                        then match get_ip (e_cfg e) host with Some i => i | None => host end else host in
+                          let '(p1, rk) := get_transport (now_s e) (s2b "tcp") host_r port t (x_p x) in
                           match rk with
                           | Ok key => (m'', Ok (set_primary key (PConn c (now_s e + 3600)) p1))
                           | _ => (m'', Ok p1)
